@@ -26,6 +26,26 @@ def roundtrip(ir):
     return data, g.IR.load_protobuf_file(io.BytesIO(data))
 
 
+def roundtrip_by_path(ir):
+    """the file-name entry points: save_protobuf(path) / load_protobuf(path)"""
+    import os
+    import tempfile
+
+    import gtirb as g
+
+    d = os.path.join(common.VERIF, ".stage")
+    os.makedirs(d, exist_ok=True)
+    fd, path = tempfile.mkstemp(prefix="c01_", suffix=".gtirb", dir=d)
+    os.close(fd)
+    try:
+        ir.save_protobuf(path)
+        with open(path, "rb") as f:
+            data = f.read()
+        return data, g.IR.load_protobuf(path)
+    finally:
+        os.unlink(path)
+
+
 def parse_plain(data):
     from gtirb.proto import IR_pb2
 
@@ -120,6 +140,18 @@ def check_spec(label, spec, orders):
                         "%s %s: %s" % (label, tag,
                                        traceback.format_exc()[-400:])))
             continue
+        if order == "topdown":
+            # the file-name entry points agree with the stream ones
+            try:
+                data_p, y_p = roundtrip_by_path(x)
+                dp = irgen.diff(irgen.snapshot(y_p), sx)
+                if dp or parse_plain(data_p) != parse_plain(data) \
+                        or data_p[:8] != data[:8]:
+                    out.append(("C01/by-path-differs:%s" % ircases.path_class(dp),
+                                "%s %s: %s" % (label, tag, dp)))
+            except Exception as e:  # noqa
+                out.append(("C01/by-path-raises:%s" % type(e).__name__,
+                            "%s %s: %r" % (label, tag, e)))
         try:
             d = irgen.diff(irgen.snapshot(y), sx)
         except Exception as e:  # noqa
